@@ -72,6 +72,9 @@ WalkBuffer == {Buffer(v, l) : v \in {"buffer", "args"}, l \in ValLists \cup {<<>
 WalkFill ==
   {FillSrc("linear", n, ld, p[2], p[3], I(0)) : n \in {2, 3, 5}, ld \in {1, 3}, p \in LinParams}
   \cup {FillSrc("bound", n, ld, I(-1), R(1, 2), I(4)) : n \in {2, 3, 6}, ld \in {1, 2}}
+  \* no point, one point, two points; strides 1..3 (the cells around and between the elements are guarded)
+  \cup {FillSrc("linear", n, ld, p[1], p[2], I(0)) : n \in 0..2, ld \in 1..3, p \in {<<I(0), I(6)>>, <<R(-1, 2), R(5, 4)>>, <<I(3), I(3)>>}}
+  \cup {FillSrc("bound", n, ld, p[1], p[2], p[3]) : n \in 0..2, ld \in 1..3, p \in {<<I(1), I(2), I(3)>>, <<I(-1), R(1, 2), I(4)>>}}
 
 WalkIterArg ==
   {IterArg(x) : x \in {y \in WalkLinear : y.via = "desc" /\ y.style = 0}}
